@@ -688,6 +688,14 @@ def coq_lle(case, out):
             if 0 < ph < F(1, 10 ** 12) or 1 - F(1, 10 ** 12) < ph < 1:
                 n_ops = k; out['float_boundary'] = True
                 break
+        # a stored K entry (or a written flow) that is float noise around an exact 0 (|v| < 1e-12, v != 0, e.g. -6e-16): this
+        # state still compares equal within the tolerance, but a later cached call divides by that entry (exact: inf, float:
+        # -1e15) and takes another branch of the phase-fraction solver; the history is compared up to and including this call
+        eps = F(1, 10 ** 12)
+        noisy = [x for x in (o['K'] or []) if 0 < abs(F(x)) < eps] + [x for x in o['l'] + o['L'] if -eps < F(x) < 0]
+        if noisy:
+            n_ops = k + 1; out['float_boundary'] = True
+            break
     ops = clist([c_lop(op) for op in case['ops'][:n_ops]])
     exp = clist([c_obs(op, o) for op, o in zip(case['ops'][:n_ops], out['obs'][:n_ops])])
     same = all(o['trace'] is None or o['trace']['same_obj'] for o in out['obs'])
@@ -990,13 +998,26 @@ def oracle_sle_stub(case):
                     m = sle_rules(tag, j, l, sd, nl, ns, x, basis)
                     if m: return m
                 else:
-                    if o['ret'][2] == 'AttributeError' and a['T'] is not None and a['H'] is None:
+                    # (a solute without activity-coefficient groups cannot be computed: any rejection is acceptable there)
+                    if o['ret'][2] == 'AttributeError' and a['T'] is not None and a['H'] is None \
+                            and (a['sol'] is not None or j in SLE_LLE_INDEX):
                         return (f'sle-rules: {tag} raised AttributeError: the result depends on whether an earlier call was made '
                                 f'on this solver object')
                     # a call that raises may have written the solute entries, never anything else
                     for i in range(4):
                         if i != j and (nl[i] != l[i] or ns[i] != sd[i]):
                             return f'sle-rules: {tag} raised {o["ret"][2]} and moved chemical {i}'
+                # history independence: the same computed call on a new stream holding the same flows
+                if a['sol'] is None and a['T'] is not None and a['H'] is None and j in SLE_LLE_INDEX and l[j] + sd[j] != 0:
+                    one = dict(case, l=[float(x) for x in l], s=[float(x) for x in sd], ops=[op])
+                    o2 = run_sle(one)['obs'][0]
+                    same_ret = o2['ret'][0] == o['ret'][0] and (o['ret'][0] == 'ok' or o2['ret'][1] == o['ret'][1])
+                    fl2 = [F(x) for x in o2['l']] + [F(x) for x in o2['s']]
+                    close = all(abs(float(x - y)) <= 1e-9 * max(1., abs(float(y))) for x, y in zip(nl + ns, fl2))
+                    if not (same_ret and close):
+                        return (f'sle-history: {tag} gives l={[float(x) for x in nl]} s={[float(x) for x in ns]} ({o["ret"][0:3:2]}) '
+                                f'after the earlier calls of this history but l={[float(F(x)) for x in o2["l"]]} '
+                                f's={[float(F(x)) for x in o2["s"]]} ({o2["ret"][0:3:2]}) on a new stream')
             elif nl != l or ns != sd:
                 return f'sle-rules: {tag}: unknown solute but the flows changed'
         l, sd = nl, ns
@@ -1105,6 +1126,15 @@ def search_cases(rng, tier):
         T0 = rng.choice([298.15, 310., 330.])
         cases.append({'kind': 'real', 'chems': chems, 'method': 'differential evolution', 'top': None,
                       'calls': [[T0, fa], [T0, fb]], 'scale': 8., 'check_activity': True})
+    # another solute earlier on the same stream; computed / given / computed with chemicals of the package absent
+    two = ['Ethanol', 'Water', 'Tetradecanol', 'Hexadecanol']
+    f2 = {'Water': 2., 'Ethanol': 6., 'Tetradecanol': 5., 'Hexadecanol': 5.}
+    for T in (285., 290., 300.):
+        cases.append({'kind': 'sle_hist_real', 'chems': two,
+                      'steps': [{'l': f2, 's': {}, 'solute': 'Tetradecanol', 'T': T}, {'l': f2, 's': {}, 'solute': 'Hexadecanol', 'T': T}]})
+        cases.append({'kind': 'sle_hist_real', 'chems': two,
+                      'steps': [{'l': {'Ethanol': 20., 'Tetradecanol': 5.}, 's': {}, 'solute': 'Tetradecanol', 'T': T},
+                                {'solute': 'Tetradecanol', 'T': T, 'sol': 0.1}, {'solute': 'Tetradecanol', 'T': T}]})
     cases.append({'kind': 'sle_hist_real', 'chems': ['Water', 'Tetradecanol', 'Octanol'],
                   'steps': [{'l': {'Tetradecanol': 5.}, 's': {}, 'solute': 'Tetradecanol', 'T': 300.},
                             {'l': {'Water': 10., 'Octanol': 2., 'Tetradecanol': 5.}, 's': {}, 'solute': 'Tetradecanol', 'T': 305.}]})
